@@ -54,14 +54,14 @@ Definition viol (kind i : N) (ok : N * rec -> bool) (h : history) : list (N * N 
    by a later dispatch of the same source, 5 source order, 6 wrong listener, 7 close;
    8 one-shot called more than once overall, 9 called after its removal returned
    (8, 9: the real-time readings refuted by the model; known-finding classes);
-   10 malformed history *)
+   10 malformed history; 11 Listeners() returned fewer than the listeners certainly registered *)
 Definition check_history (i : N) (s : string) : list (N * N * N) :=
   match decode s 0 with
   | None => [(10, i, 0)]
   | Some h =>
       viol 1 i (ok_amo h) h ++ viol 2 i (ok_must h) h ++ viol 3 i (ok_mustnot h) h ++
       viol 4 i (ok_once h) h ++ viol 5 i (ok_order h) h ++ viol 6 i (ok_right h) h ++
-      viol 7 i (ok_close h) h ++
+      viol 7 i (ok_close h) h ++ viol 11 i (ok_count h) h ++
       (* 8 is reported only where 4 is not (same-source repeats are violations of the spec) *)
       viol 8 i (fun tr => ok_once_total h tr || negb (ok_once h tr)) h ++
       viol 9 i (ok_after_removal h) h
